@@ -842,3 +842,123 @@ def save_siblings(F):
     if n < 4:
         raise CheckError("expected ≥4 InstrToInject first-insert literals in the save_* helpers, found %d" % n)
     return r
+
+
+# ---------------------------------------------------------------- R-IF-CHAIN
+def if_chain(F):
+    """resolve_bodies emits wasm structured control itself (local.get flag; if; body; [else ..]; end).  The emitted
+    if/else/end sequence must be well nested for any number of flagged bodies: enumerate the emission paths with the loop
+    unrolled 0..3 times and run the sequence through a stack machine (an `else` needs an open `if` that has no `else` yet;
+    every `if` is closed; nothing is closed that was not opened)."""
+    r = RuleResult("R-IF-CHAIN",
+                   "the if/else/end instructions that resolve_bodies injects around flag-guarded bodies are well nested for 0, 1, 2 and 3 bodies (no second `else` on one `if`, every `if` closed)")
+    rb = F.one_fn(name="resolve_bodies")
+    r.analysed.append(rb["path"])
+
+    # counted loops `for _ in 0..<counter>`: the body block of such a loop is labelled ITER:<counter>, every
+    # `<counter> += 1` is labelled INC:<counter>; a path is feasible only if the two counts agree
+    counted_bodies = {}
+    for m in walk(rb["body"]):
+        if m.get("k") == "Match" and m.get("src") == "ForLoopDesugar":
+            rng = None
+            for x in walk(m["scrut"]):
+                if x.get("k") == "Struct" and (x.get("adt") or "").endswith("ops::Range") and x.get("fields"):
+                    rng = dict(x["fields"])
+            if rng and "end" in rng and peel(rng["end"]).get("k") == "Path" and peel(rng["end"]).get("res", {}).get("r") == "local" and lit_int(peel(rng.get("start") or {}).get("lit")) == 0:
+                hid = peel(rng["end"])["res"]["hid"]
+                for lp in walk(m["arms"][0]["body"]):
+                    if lp.get("k") == "Match" and lp is not m:
+                        for arm in lp["arms"]:
+                            if arm["pat"].get("variant") == "Some":
+                                counted_bodies[id(arm["body"])] = hid
+                        break
+
+    def clf(n):
+        if n.get("k") == "MethodCall" and n["method"] in ("if_stmt", "else_stmt", "end", "block", "loop_stmt"):
+            return n["method"]
+        if n.get("k") == "AssignOp" and n.get("op", "").startswith("+") and lit_int(peel(n["rhs"]).get("lit")) == 1 and peel(n["lhs"]).get("res", {}).get("r") == "local":
+            return "INC:%s" % peel(n["lhs"])["res"]["hid"]
+        if id(n) in counted_bodies:
+            return "ITER:%s" % counted_bodies[id(n)]
+        return None
+
+    # the `is_first` idiom makes most syntactic paths infeasible: interpret it (first iteration takes the is_first branch,
+    # later ones the other) by labelling the branch and filtering
+    first_hids = {st["pat"]["hid"] for st in walk(rb["body"]) if st.get("k") == "Let" and st["pat"].get("k") == "Binding" and st["pat"].get("ty") == "bool" and peel(st.get("init") or {}).get("lit") == "Bool(true)"}
+
+    def branch_label(node):
+        c = peel(node["cond"])
+        neg = False
+        if c.get("k") == "Unary" and c.get("op") == "!":
+            neg, c = True, peel(c["a"])
+        if c.get("k") == "Path" and c.get("res", {}).get("hid") in first_hids:
+            return ("NOTFIRST", "FIRST") if neg else ("FIRST", "NOTFIRST")
+        if c.get("k") == "Unary" or c.get("k") == "MethodCall":
+            # `!flagged.is_empty()` – label so that it can be tied to the number of iterations
+            if any(x.get("k") == "MethodCall" and x["method"] == "is_empty" for x in walk(node["cond"])):
+                return ("NONEMPTY", "EMPTY")
+        return None
+
+    # number of is_first tests evaluated per loop iteration (each contributes one mark)
+    tests_per_iter = 0
+    for m in walk(rb["body"]):
+        if m.get("k") == "Match" and m.get("src") == "ForLoopDesugar":
+            cnt = 0
+            for n in walk(m):
+                if n.get("k") == "If":
+                    c = peel(n["cond"])
+                    if c.get("k") == "Unary" and c.get("op") == "!":
+                        c = peel(c["a"])
+                    if c.get("k") == "Path" and c.get("res", {}).get("hid") in first_hids:
+                        cnt += 1
+            tests_per_iter = max(tests_per_iter, cnt)
+    n_paths = 0
+    worst = None
+    for ev, st in normal_paths(paths(rb["body"], clf, unroll=3, branch_label=branch_label)):
+        # feasibility of the is_first protocol: per iteration the labels must be FIRST on the first and NOTFIRST afterwards
+        marks = [e for e in ev if e in ("FIRST", "NOTFIRST")]
+        its = []
+        # group marks per iteration: every iteration contributes the same number of marks (≥1)
+        if marks:
+            k = tests_per_iter
+            if k and len(marks) % k == 0:
+                its = [marks[i:i + k] for i in range(0, len(marks), k)]
+            else:
+                continue
+            if not all(x == "FIRST" for x in its[0]) or any(x == "FIRST" for it in its[1:] for x in it):
+                continue
+        n_iter = len(its)
+        if ("NONEMPTY" in ev and n_iter == 0) or ("EMPTY" in ev and n_iter > 0):
+            continue
+        counters = {e.split(":")[1] for e in ev if e.startswith(("INC:", "ITER:"))}
+        if any(ev.count("INC:" + c) != ev.count("ITER:" + c) for c in counters if any(v == c or str(v) == c for v in map(str, counted_bodies.values()))):
+            continue
+        n_paths += 1
+        stack = []
+        bad = None
+        for e in ev:
+            if e in ("if_stmt", "block", "loop_stmt"):
+                stack.append([e, False])
+            elif e == "else_stmt":
+                if not stack or stack[-1][0] != "if_stmt" or stack[-1][1]:
+                    bad = "an `else` is emitted where no `if` without an `else` is open"
+                    break
+                stack[-1][1] = True
+            elif e == "end":
+                if not stack:
+                    bad = "an `end` closes nothing"
+                    break
+                stack.pop()
+        if bad is None and stack:
+            bad = "%d `if` left open" % len(stack)
+        if bad and worst is None:
+            worst = (n_iter, bad, [e for e in ev if e in ("if_stmt", "else_stmt", "end")])
+    ok = worst is None
+    r.ob(ok, {"emission_paths_checked": n_paths, "well_nested": ok})
+    r.count("emission_paths", n_paths)
+    if n_paths < 3:
+        raise CheckError("resolve_bodies: fewer than 3 feasible emission paths enumerated (%d)" % n_paths)
+    if not ok:
+        r.violate("%s | ill-nested for %d flagged bodies" % (rb["path"], worst[0]), F.loc(rb),
+                  "with %d flag-guarded bodies for one block end resolve_bodies emits %s: %s — the instrumented function does not validate" % (worst[0], " ".join(worst[2]), worst[1]))
+    return r
